@@ -338,3 +338,19 @@ def expand_locals(fn, e, depth=3):
                 return n
         return S().visit(copy.deepcopy(node))
     return ex(e, depth)
+
+
+def text_through_helpers(prog, fn, e, depth=2):
+    """Normalised text of expression e, followed by the text of what the private helpers called in it return
+    (extract-method: `idx = self._index_of(x)` reads as the helper's `return self.items.index(x)`)."""
+    t = norm(e)
+    if depth <= 0:
+        return t
+    hs = {h.name: h for h in unit_functions(prog, fn)[1:]}
+    for c in ast.walk(e):
+        if isinstance(c, ast.Call) and call_name(c) in hs:
+            h = hs[call_name(c)]
+            for r in walk_fn(h):
+                if isinstance(r, ast.Return) and r.value is not None:
+                    t += ' ' + text_through_helpers(prog, h, r.value, depth - 1)
+    return t
